@@ -10,6 +10,7 @@
 #include <cstdint>
 #include <set>
 #include <string>
+#include <type_traits>
 #include <utility>
 #include <vector>
 
@@ -30,7 +31,17 @@ struct Event {
 ///   using State = ...;            (copyable)
 ///   State initial();
 ///   std::string key(const State&);           (memo key)
-///   bool apply(State&, const Event&) const;  (false: result inconsistent)
+///   either  bool apply(State&, const Event&) const;  (false: result inconsistent)
+///   or      void successors(const State&, const Event&, std::vector<State>&) const;
+///           (nondeterministic specification: every state the operation may
+///            lead to given its observed result; empty = inconsistent)
+template<class M, class = void>
+struct has_successors: std::false_type {};
+template<class M>
+struct has_successors<M, std::void_t<decltype(std::declval<const M&>().successors(
+                             std::declval<const typename M::State&>(), std::declval<const Event&>(),
+                             std::declval<std::vector<typename M::State>&>()))>>: std::true_type {};
+
 template<class Model>
 class Checker {
   public:
@@ -65,11 +76,18 @@ class Checker {
                     evs[j].resp != PENDING && evs[j].resp <= evs[i].inv)
                     blocked = true;
             if (blocked) continue;
-            typename Model::State s2 = st;
-            if (!model.apply(s2, evs[i])) continue;
-            witness.push_back(i);
-            if (dfs(done | (1u << i), s2)) return true;
-            witness.pop_back();
+            std::vector<typename Model::State> next;
+            if constexpr (has_successors<Model>::value) {
+                model.successors(st, evs[i], next);
+            } else {
+                typename Model::State s2 = st;
+                if (model.apply(s2, evs[i])) next.push_back(s2);
+            }
+            for (auto& s2 : next) {
+                witness.push_back(i);
+                if (dfs(done | (1u << i), s2)) return true;
+                witness.pop_back();
+            }
         }
         dead.insert(k);
         return false;
